@@ -227,8 +227,10 @@ func NewPrelude() *Prelude {
 	p.Add("const:s_empty", "(declare-const s_empty Str)")
 	p.Add("ax:s_empty", "(assert (= (s_len s_empty) 0))")
 	p.Add("ax:s_empty#2", "(assert (forall ((s Str)) (! (=> (= (s_len s) 0) (= s s_empty)) :pattern ((s_len s)))))")
-	p.Add("fn:old_alloc", "(declare-fun old_alloc (Int) Bool)")
-	p.Add("ax:old_alloc#0", "(assert (old_alloc 0))")
+	// atime(r): allocation time of reference r on the verified function's clock (0 = allocated before entry)
+	p.Add("fn:atime", "(declare-fun atime (Int) Int)")
+	p.Add("fn:old_alloc", "(define-fun old_alloc ((x Int)) Bool (<= (atime x) 0))")
+	p.Add("ax:atime#0", "(assert (= (atime 0) 0))")
 	return p
 }
 
@@ -298,7 +300,10 @@ func smtTokens(s string) []string {
 }
 
 // For returns the part of the prelude relevant to body: declarations of used symbols and axioms whose trigger symbol is used.
-func (p *Prelude) For(body string) string {
+func (p *Prelude) For(body string) string { return p.ForExcl(body, nil) }
+
+// ForExcl is For without the axioms whose name is in excl (a lemma is proved without itself and later lemmas).
+func (p *Prelude) ForExcl(body string, excl map[string]bool) string {
 	used := map[string]bool{}
 	for _, t := range smtTokens(body) {
 		used[t] = true
@@ -309,6 +314,11 @@ func (p *Prelude) For(body string) string {
 		for i, e := range p.entries {
 			if inc[i] {
 				continue
+			}
+			if e.axiom && len(excl) > 0 {
+				if j := strings.LastIndex(e.key, "#"); j >= 0 && excl[e.key[j+1:]] {
+					continue
+				}
 			}
 			hit := false
 			for _, n := range e.names {
